@@ -22,6 +22,10 @@ type RCRes struct {
 	// Tentative is set while the resource is kept only by a subscribe
 	// request that has not been answered yet.
 	Tentative bool
+	// MissedStray is set when an event for this resource arrived while the
+	// client only had it from a get response (finding K): the client ignores
+	// such an event, so the copy is outdated if it is adopted afterwards.
+	MissedStray bool
 }
 
 // Viol is a violation found by a monitor.
@@ -586,7 +590,9 @@ func (rc *RefClient) processEvent(f *Frame) {
 		if p, ok := rc.pool[rid]; ok {
 			// delivered by a get response in the directly preceding frame(s)
 			sig = "strayEvent.afterGet"
-			_ = p
+			if ev == "change" || ev == "add" || ev == "remove" || ev == "delete" {
+				p.MissedStray = true
+			}
 			// the flush may continue with events for the other resources of
 			// the same get response: keep the whole pool one more frame
 			rc.poolKeep = map[string]*RCRes{}
